@@ -243,7 +243,8 @@ def run_rc_stage(ctx, prop, stage, tier, res):
         if os.path.exists(rep):
             os.remove(rep)
         env = dict(os.environ)
-        env['RC_PARAMS'] = 'seed=%d max_success=%d max_size=%d' % (seed, ncases, max_size)
+        n = max(50, int(ncases * stage.get('case_scale', {}).get(cfg, 1.0)))
+        env['RC_PARAMS'] = 'seed=%d max_success=%d max_size=%d' % (seed, n, max_size)
         cmd = [bins[cfg], 'run', '--frag', frag, '--replay-out', rep]
         if known_ids:
             cmd += ['--known', ','.join(known_ids)]
